@@ -11,20 +11,30 @@
 package c14
 
 import (
+	"bufio"
+	"crypto/sha256"
+	"encoding/hex"
 	"encoding/json"
+	"errors"
 	"fmt"
 	"os"
+	"os/exec"
 	"path/filepath"
+	"regexp"
+	"runtime/debug"
 	"sort"
 	"strconv"
 	"strings"
+	"sync"
 	"testing"
 	"testing/synctest"
+	"time"
 
 	"github.com/influxdata/influxdb/v2/models"
 	"github.com/influxdata/influxdb/v2/pkg/verifrt/vrt"
 	"github.com/influxdata/influxdb/v2/tsdb"
 	"github.com/influxdata/influxdb/v2/tsdb/index/tsi1"
+	"verif/h/crashfs"
 	"verif/h/vlib"
 )
 
@@ -132,6 +142,9 @@ type Cfg struct {
 
 type OpResult struct {
 	Err string `json:"err,omitempty"`
+	// IDs: the series-file id of every universe series after the op (0 = none) — fixture bookkeeping for the crash
+	// family, so that the recovery checker can name the ids of series dropped before the cut.
+	IDs [6]uint64 `json:"ids"`
 }
 
 type Acker interface {
@@ -371,6 +384,11 @@ func PerformHistory(dir string, cfg Cfg, ops []Op, ack Acker, after func(step in
 		var res OpResult
 		if e := w.Exec(op); e != nil {
 			res.Err = e.Error()
+		}
+		if w.SF != nil {
+			for i := range Universe {
+				res.IDs[i] = w.seriesID(i)
+			}
 		}
 		b, _ := json.Marshal(res)
 		ack.Ack(step, string(b))
@@ -709,26 +727,40 @@ func diffList(got, want []string) (extra, missing []string) {
 
 // CompareViews reports every difference between the answers and the view of the live series, in a fixed
 // query order.
-func CompareViews(got, want *View) (fails []*Fail) {
-	cmpList := func(group, query, m, arg string, g, w []string) {
-		extra, missing := diffList(g, w)
+func CompareViews(got, want *View) (fails []*Fail) { return CompareBounds(got, want, want) }
+
+// CompareBounds is CompareViews against two views (crash images with an op in flight, whose effect need not be
+// visible atomically): every answer must contain what the view lo lists (else "missing") and nothing the view hi does
+// not list (else "extra"). With lo == hi it is the exact comparison.
+func CompareBounds(got, lo, hi *View) (fails []*Fail) {
+	exact := lo == hi
+	say := func(l, h any) string {
+		if exact {
+			return fmt.Sprintf("live series say %v", l)
+		}
+		return fmt.Sprintf("live series say at least %v and at most %v (an op is in flight)", l, h)
+	}
+	cmpList := func(group, query, m, arg string, g, _ []string) {
+		l, h := pick(lo, query, arg), pick(hi, query, arg)
+		_, missing := diffList(g, l)
+		extra, _ := diffList(g, h)
 		if len(missing) > 0 {
-			fails = append(fails, &Fail{query, group, "missing", m, fmt.Sprintf("%s(%s) = %v, live series say %v (missing %v)", query, arg, g, w, missing)})
+			fails = append(fails, &Fail{query, group, "missing", m, fmt.Sprintf("%s(%s) = %v, %s (missing %v)", query, arg, g, say(l, h), missing)})
 		}
 		if len(extra) > 0 {
-			fails = append(fails, &Fail{query, group, "extra", m, fmt.Sprintf("%s(%s) = %v, live series say %v (extra %v)", query, arg, g, w, extra)})
+			fails = append(fails, &Fail{query, group, "extra", m, fmt.Sprintf("%s(%s) = %v, %s (extra %v)", query, arg, g, say(l, h), extra)})
 		}
 	}
-	cmpBool := func(group, query, m, arg string, g, w bool) {
-		if g == w {
-			return
+	cmpBool := func(group, query, m, arg string, g, _ bool) {
+		l, h := pickBool(lo, query, arg), pickBool(hi, query, arg)
+		switch {
+		case l && !g:
+			fails = append(fails, &Fail{query, group, "missing", m, fmt.Sprintf("%s(%s) = %v, %s", query, arg, g, say(l, h))})
+		case g && !h:
+			fails = append(fails, &Fail{query, group, "extra", m, fmt.Sprintf("%s(%s) = %v, %s", query, arg, g, say(l, h))})
 		}
-		dir := "extra"
-		if w {
-			dir = "missing"
-		}
-		fails = append(fails, &Fail{query, group, dir, m, fmt.Sprintf("%s(%s) = %v, live series say %v", query, arg, g, w)})
 	}
+	want := lo
 	cmpList("measurement-names", "MeasurementIterator", "", "", got.Names, want.Names)
 	for _, m := range Measurements {
 		cmpBool("measurement-names", "MeasurementExists", m, m, got.Exists[m], want.Exists[m])
@@ -754,6 +786,51 @@ func CompareViews(got, want *View) (fails []*Fail) {
 		}
 	}
 	return fails
+}
+
+// pick / pickBool return the answer a view gives to a query (arg as printed by CompareBounds: "m", "m,k", "m,k,v").
+func pick(v *View, query, arg string) []string {
+	key := strings.ReplaceAll(arg, ",", "/")
+	switch query {
+	case "MeasurementIterator":
+		return v.Names
+	case "MeasurementSeriesIDIterator":
+		return v.MSeries[key]
+	case "TagKeyIterator":
+		return v.Keys[key]
+	case "TagKeySeriesIDIterator":
+		return v.KSeries[key]
+	case "TagValueIterator":
+		return v.Values[key]
+	case "TagValueSeriesIDIterator":
+		return v.VSeries[key]
+	}
+	panic("pick: unknown query " + query)
+}
+
+func pickBool(v *View, query, arg string) bool {
+	key := strings.ReplaceAll(arg, ",", "/")
+	switch query {
+	case "MeasurementExists":
+		return v.Exists[key]
+	case "HasTagKey":
+		return v.HasKey[key]
+	case "HasTagValue":
+		return v.HasVal[key]
+	}
+	panic("pickBool: unknown query " + query)
+}
+
+// inflightBounds: the live sets every answer must contain / may contain at most while op is in flight on top of m.
+func inflightBounds(m *Model, op Op) (lo, hi [6]bool) {
+	lo, hi = m.Live, m.Live
+	after := *m
+	after.Apply(op)
+	for i := range lo {
+		lo[i] = m.Live[i] && after.Live[i]
+		hi[i] = m.Live[i] || after.Live[i]
+	}
+	return
 }
 
 // Expect for the recovery checker: the model of acknowledged ops, and the op in flight (nil = exact).
@@ -784,7 +861,8 @@ func ProbeOps(probe string) []Op {
 // CheckRecovery opens dir with the real code, reads every query and compares with the acknowledged model;
 // with an op in flight the view must equal the model before OR after that op (the statement's "± in-flight
 // op"; a partially applied multi-series op is accepted if the view equals the model after applying the op to
-// any subset of its series). Then the probe ops are executed on the recovered index and judged after each
+// any subset of its series) or, failing that, every single answer must lie between the live series before and
+// after the op (CompareBounds: the op's log entries are not written atomically). Then the probe ops are executed on the recovered index and judged after each
 // (what the restart rebuilt in memory — e.g. the partition's series-id set — only shows in how later writes
 // and drops behave). report is called once per stage ("restart", "probe:<op>") with the differences found,
 // the model in force and the file layout. It returns the model the first read settled on (the closest candidate).
@@ -809,17 +887,32 @@ func CheckRecovery(dir string, cfg Cfg, e Expect, n *IDNames, probe string, repo
 	if e.InFlight != nil {
 		cands = append(cands, partials(e.M, *e.InFlight)...)
 	}
-	// the candidate with the fewest differences (none, if the view is right) is what the index settled on;
-	// the probe goes on from there even if differences were reported
+	// the candidate with the fewest differences (none, if the view is right; a missing item weighs more than any
+	// number of stale ones) is what the index settled on; the probe goes on from there even if differences were reported
 	var best []*Fail
+	weight := func(f []*Fail) int {
+		w := len(f)
+		for _, x := range f {
+			if x.Dir != "extra" {
+				w += 1000
+			}
+		}
+		return w
+	}
 	for i, c := range cands {
 		f := CompareViews(got, Expected(c.Live))
-		if i == 0 || len(f) < len(best) {
+		if i == 0 || weight(f) < weight(best) {
 			settled, best = c, f
 		}
 		if len(f) == 0 {
 			break
 		}
+	}
+	if e.InFlight != nil && len(best) > 0 {
+		// the op in flight need not be visible atomically: every answer is judged on its own against the live series
+		// before and after it
+		lo, hi := inflightBounds(e.M, *e.InFlight)
+		best = CompareBounds(got, Expected(lo), Expected(hi))
 	}
 	report("restart", best, settled, lay, got)
 	m := *settled
@@ -892,6 +985,8 @@ type Case struct {
 	// Want: the violation class this case was recorded for (a history may show several); replay reports
 	// whether exactly this class reproduces.
 	Want string `json:"want,omitempty"`
+	// Crash: crash family (then the other fields are unused)
+	Crash *CrashCase `json:"crash,omitempty"`
 }
 
 // Found is one violation class observed in a history (first occurrence).
@@ -1449,7 +1544,880 @@ func families(thorough bool) []family {
 	}
 }
 
+// =========================================================================================================
+// crash family (engine: verif/h/crashfs)
+//
+// A history writer (this binary re-executed under strace) performs a history through PerformHistory with BEGIN/ACK
+// markers around the initial open of the empty directory (k=0) and every op (k=i+1) and exits without closing. Every
+// prefix / torn-write / unsynced image of the syscall log is materialized and recovered by CheckRecovery (restart,
+// read every query, probe ops, second restart) in a fresh subprocess.
+
+// CrashHistory is one work item of the crash family: a history and the op window whose cuts are evaluated.
+type CrashHistory struct {
+	Name string `json:"name"`
+	Cfg  Cfg    `json:"cfg"`
+	Ops  []Op   `json:"ops"`
+	// From/Upto: only the images whose cut lies inside or after op From (-1: also the initial open) and before the
+	// BEGIN of op Upto (0 = len(Ops)) are evaluated; each work item records the whole history again.
+	From  int    `json:"from"`
+	Upto  int    `json:"upto,omitempty"`
+	Probe string `json:"probe"`
+}
+
+func (h CrashHistory) String() string {
+	w := ""
+	if h.Upto != 0 {
+		w = fmt.Sprintf(" cuts of ops %d..%d", h.From, h.Upto-1)
+	} else if h.From > 0 {
+		w = fmt.Sprintf(" cuts of ops %d..", h.From)
+	}
+	return h.Name + "(" + h.Cfg.Name + ") [" + opsString(h.Ops) + "]" + w
+}
+
+func splitAt(h CrashHistory, at ...int) []CrashHistory {
+	var out []CrashHistory
+	lo := h.From
+	for _, b := range append(at, len(h.Ops)) {
+		w := h
+		w.From, w.Upto = lo, b
+		out = append(out, w)
+		lo = b
+	}
+	return out
+}
+
+func perOp(h CrashHistory) []CrashHistory {
+	var at []int
+	for i := max(h.From, 0) + 1; i < len(h.Ops); i++ {
+		at = append(at, i)
+	}
+	return splitAt(h, at...)
+}
+
+func mkS(kind string, s ...int) Op { return Op{Kind: kind, S: s} }
+func mkM(kind, m string) Op        { return Op{Kind: kind, M: m} }
+
+// CrashAlphabet: the ops of the enumerated crash histories (thorough).
+func CrashAlphabet() []Op {
+	return []Op{mkS(OpCreate, 0), mkS(OpCreate, 2), mkS(OpCreate, 0, 1, 2, 3), mkS(OpDropS, 2), mkM(OpDropM, "m0"), mkM(OpDropMd, "m0"), {Kind: OpReopen}, {Kind: OpCompact}}
+}
+
+func crashHistories(tier string) []CrashHistory {
+	thorough := tier == "thorough"
+	var hs []CrashHistory
+	add := func(h CrashHistory, quickSplit ...int) {
+		if h.Probe == "" {
+			h.Probe = ProbeSingle
+		}
+		if thorough {
+			hs = append(hs, perOp(h)...)
+		} else {
+			hs = append(hs, splitAt(h, quickSplit...)...)
+		}
+	}
+	// log appends only (default threshold): initial open (log file + manifest), batch create, series drop (S2 is the
+	// only holder of m0.b=x), other measurement, engine measurement delete, re-creation
+	add(CrashHistory{Name: "log-appends", Cfg: CfgExplicit, Ops: []Op{mkS(OpCreate, 0, 1, 2, 3), mkS(OpDropS, 2), mkS(OpCreate, 4), mkM(OpDropM, "m0"), mkS(OpCreate, 0)}, From: -1}, 1, 3, 4)
+	// index-only drops: the series stay in the series file, a re-creation gets the same id; restart in between
+	add(CrashHistory{Name: "shared", Cfg: CfgExplicit, Probe: ProbeShared, Ops: []Op{mkS(OpCreate, 0, 1, 2, 3), mkS(OpDropI, 0), {Kind: OpReopen}, mkS(OpCreate, 0), mkS(OpDropI, 0, 1, 2, 3)}}, 2, 4)
+	if !thorough {
+		// forced compaction: log -> L1 (.tsi written, synced; manifest tmp written, synced, renamed; log removed), series
+		// drop and direct measurement drop on top of an index file, re-creation
+		add(CrashHistory{Name: "compact", Cfg: CfgExplicit, Ops: []Op{mkS(OpCreate, 0, 1, 2, 3, 4, 5), {Kind: OpCompact}, mkS(OpDropS, 2), mkM(OpDropMd, "m1"), mkS(OpCreate, 2)}}, 1, 2, 3)
+		// threshold 1: every op's log file is rolled and compacted at once (awaited before the op is acknowledged)
+		add(CrashHistory{Name: "auto-compact", Cfg: CfgAuto, Ops: []Op{mkS(OpCreate, 0, 2), mkS(OpDropS, 2)}}, 1)
+		return hs
+	}
+	// forced compaction twice: log -> L1, drops on top of an index file, log -> L1 and L1+L1 -> L2, re-creation
+	add(CrashHistory{Name: "compact", Cfg: CfgExplicit, Ops: []Op{mkS(OpCreate, 0, 1, 2, 3, 4, 5), {Kind: OpCompact}, mkS(OpDropS, 2), mkM(OpDropMd, "m1"), {Kind: OpCompact}, mkS(OpCreate, 2)}})
+	add(CrashHistory{Name: "auto-compact", Cfg: CfgAuto, Ops: []Op{mkS(OpCreate, 0), mkS(OpCreate, 2), mkS(OpDropS, 2)}})
+	add(CrashHistory{Name: "reopen-drop", Cfg: CfgExplicit, Ops: []Op{mkS(OpCreate, 0, 1, 2, 3, 4, 5), {Kind: OpReopen}, mkM(OpDropMd, "m0"), {Kind: OpCompact}, {Kind: OpReopen}, mkS(OpCreate, 0, 1, 2, 3), mkM(OpDropM, "m0")}})
+	add(CrashHistory{Name: "mid", Cfg: CfgMid, Ops: []Op{mkS(OpCreate, 0, 1, 2, 3, 4, 5), mkS(OpDropS, 0), mkM(OpDropM, "m1"), mkS(OpCreate, 4)}})
+	// every sequence of length 1..2 over the crash alphabet (explicit configuration), cuts of the last op only
+	maxLen := envInt("C14_CRASH_DEPTH", 2)
+	forEachSeq(CrashAlphabet(), 1, maxLen, func(ops []Op) bool {
+		hs = append(hs, CrashHistory{Name: "seq", Cfg: CfgExplicit, Ops: ops, From: len(ops) - 1, Probe: ProbeSingle})
+		return true
+	})
+	return hs
+}
+
+// ---------------------------------------------------------------- history writer (runs under strace)
+
+type crashWriterSpec struct {
+	Dir     string `json:"dir"`
+	Markers string `json:"markers"`
+	Cfg     Cfg    `json:"cfg"`
+	Ops     []Op   `json:"ops"`
+}
+
+type markerOp struct {
+	I  int `json:"i"` // -1: the initial open
+	Op Op  `json:"op"`
+}
+
+type shiftAcker struct {
+	m      *crashfs.Markers
+	opened bool
+}
+
+func (a *shiftAcker) open() {
+	if !a.opened {
+		a.opened = true
+		a.m.Ack(0, "{}")
+	}
+}
+func (a *shiftAcker) Begin(k int, v any)       { a.open(); a.m.Begin(k+1, markerOp{I: k, Op: v.(Op)}) }
+func (a *shiftAcker) Ack(k int, result string) { a.m.Ack(k+1, result) }
+
+func crashWriterMain(js string) int {
+	var sp crashWriterSpec
+	if err := json.Unmarshal([]byte(js), &sp); err != nil {
+		fmt.Fprintln(os.Stderr, "c14 writer: bad spec:", err)
+		return 2
+	}
+	m, err := crashfs.OpenMarkers(sp.Markers)
+	if err != nil {
+		fmt.Fprintln(os.Stderr, "c14 writer:", err)
+		return 2
+	}
+	if err := os.Mkdir(sp.Dir, 0o777); err != nil {
+		fmt.Fprintln(os.Stderr, "c14 writer:", err)
+		return 2
+	}
+	a := &shiftAcker{m: m}
+	m.Begin(0, markerOp{I: -1, Op: Op{Kind: "open"}})
+	_, _, err = PerformHistory(sp.Dir, sp.Cfg, sp.Ops, a, nil)
+	if err != nil {
+		fmt.Fprintln(os.Stderr, "c14 writer: history failed live:", err)
+		return 1
+	}
+	a.open()
+	return 0 // the process exits with index and series file open
+}
+
+// ---------------------------------------------------------------- acknowledgement context
+
+type crashCtx struct {
+	M      *Model
+	InFl   *Op
+	Infl   string // kind of the op in flight: none | open | <op kind>
+	InflI  int
+	NAcked int
+	IDs    [6]uint64 // series ids reported by the last acknowledged op
+	Past   map[uint64]int
+}
+
+func contextOf(im *crashfs.Image) (cx crashCtx, err error) {
+	cx.M, cx.Infl, cx.InflI, cx.Past = &Model{}, "none", -1, map[uint64]int{}
+	for _, a := range im.Acked() {
+		var mo markerOp
+		if err := json.Unmarshal([]byte(a.Op), &mo); err != nil {
+			return cx, fmt.Errorf("marker payload %q: %v", a.Op, err)
+		}
+		if mo.I < 0 {
+			continue
+		}
+		var res OpResult
+		if err := json.Unmarshal([]byte(a.Result), &res); err != nil {
+			return cx, fmt.Errorf("ack payload %q: %v", a.Result, err)
+		}
+		if res.Err != "" {
+			return cx, fmt.Errorf("the history failed live at op %d %s: %s", mo.I, mo.Op, res.Err)
+		}
+		cx.NAcked++
+		cx.M.Apply(mo.Op)
+		for i, id := range res.IDs {
+			if old := cx.IDs[i]; old != 0 && old != id {
+				cx.Past[old] = i
+			}
+		}
+		cx.IDs = res.IDs
+	}
+	if f := im.InFlight(); f != nil {
+		var mo markerOp
+		if err := json.Unmarshal([]byte(f.Op), &mo); err != nil {
+			return cx, fmt.Errorf("marker payload %q: %v", f.Op, err)
+		}
+		cx.Infl, cx.InflI = mo.Op.Kind, mo.I
+		if mo.I >= 0 {
+			op := mo.Op
+			cx.InFl = &op
+		}
+	}
+	return cx, nil
+}
+
+func (h CrashHistory) keep(cx crashCtx) bool {
+	pos := cx.NAcked - 1
+	if cx.Infl != "none" {
+		pos = cx.InflI
+	}
+	return pos >= h.From && (h.Upto == 0 || pos < h.Upto)
+}
+
+// ---------------------------------------------------------------- recovery checker (fresh subprocess, batch of images)
+
+// CrashFinding is one violation class seen on an image.
+type CrashFinding struct {
+	Sig    string `json:"sig"` // without the crash context (added by the parent for everything but "extra" classes)
+	Extra  bool   `json:"extra"`
+	Stage  string `json:"stage"`
+	Why    string `json:"why"`
+	Clause string `json:"clause"` // group/dir
+}
+
+// CrashObs is what the recovery checker found on one image under one acknowledgement context.
+type CrashObs struct {
+	ID      string         `json:"id"`
+	Done    bool           `json:"done"`
+	Harness string         `json:"harness,omitempty"`
+	Panic   string         `json:"panic,omitempty"`
+	Died    string         `json:"died,omitempty"`
+	Found   []CrashFinding `json:"found,omitempty"`
+	Settle  string         `json:"settle,omitempty"` // before | after | partial | n/a
+	State   string         `json:"state,omitempty"`  // settled model + layout
+}
+
+type crashRecItem struct {
+	ID    string         `json:"id"`
+	Dir   string         `json:"dir"`
+	Cfg   Cfg            `json:"cfg"`
+	M     *Model         `json:"model"`
+	InFl  *Op            `json:"in_flight,omitempty"`
+	IDs   [6]uint64      `json:"ids"`
+	Past  map[uint64]int `json:"past_ids,omitempty"`
+	Probe string         `json:"probe"`
+}
+
+type crashRecJob struct {
+	Items []crashRecItem `json:"items"`
+	Out   string         `json:"out"`
+}
+
+func crashRecoverOne(it crashRecItem) (o CrashObs) {
+	o.ID = it.ID
+	names := NewIDNames()
+	for i, id := range it.IDs {
+		if id != 0 {
+			names.cur[i] = id
+			names.name[id] = "S" + strconv.Itoa(i)
+		}
+	}
+	for id, i := range it.Past {
+		names.name[id] = "S" + strconv.Itoa(i) + "'"
+	}
+	rcfg := it.Cfg
+	if rcfg.MaxLog > 0 {
+		rcfg.Settle = true
+	}
+	seen := map[string]bool{}
+	collect := func(prefix string) func(stage string, fails []*Fail, mm *Model, lay string, got *View) {
+		return func(stage string, fails []*Fail, mm *Model, lay string, got *View) {
+			for _, f := range fails {
+				if f.Group == "recovery" && f.Dir != "open-failed" && f.Dir != "query-error" && f.Dir != "op-error" {
+					o.Harness = fmt.Sprintf("%s%s: %s: %s", prefix, stage, f.Query, f.Why)
+					return
+				}
+				sg := sigOf(rcfg, f, mm, lay, true)
+				if seen[sg] {
+					continue
+				}
+				seen[sg] = true
+				q := f.Group
+				if f.Group == "recovery" {
+					q += ":" + f.Query
+				}
+				o.Found = append(o.Found, CrashFinding{Sig: sg, Extra: f.Dir == "extra", Stage: prefix + stage, Why: f.Why, Clause: q + "/" + f.Dir})
+			}
+		}
+	}
+	panicked, desc := vlib.Guard(func() {
+		settled := CheckRecovery(it.Dir, rcfg, Expect{M: it.M, InFlight: it.InFl}, names, it.Probe, collect(""))
+		if settled == nil {
+			o.Done = true
+			return
+		}
+		switch {
+		case it.InFl == nil:
+			o.Settle = "n/a"
+		case settled.Live == it.M.Live:
+			o.Settle = "before"
+		default:
+			after := *it.M
+			after.Apply(*it.InFl)
+			o.Settle = "partial"
+			if settled.Live == after.Live {
+				o.Settle = "after"
+			}
+		}
+		o.State = settled.key()
+		// second restart: the model after the probe ops
+		m := *settled
+		for _, op := range ProbeOps(it.Probe) {
+			m.Apply(op)
+		}
+		CheckRecovery(it.Dir, rcfg, Expect{M: &m}, names, ProbeNone, collect("second-"))
+		o.Done = true
+	})
+	if panicked {
+		o.Panic = strings.ReplaceAll(desc, it.Dir, "<image>")
+	}
+	for i := range o.Found {
+		o.Found[i].Why = strings.ReplaceAll(o.Found[i].Why, it.Dir, "<image>")
+	}
+	o.Harness = strings.ReplaceAll(o.Harness, it.Dir, "<image>")
+	return
+}
+
+func crashRecoverMain(jobPath string) int {
+	b, err := os.ReadFile(jobPath)
+	if err != nil {
+		fmt.Fprintln(os.Stderr, "c14 recover:", err)
+		return 2
+	}
+	var job crashRecJob
+	if err := json.Unmarshal(b, &job); err != nil {
+		fmt.Fprintln(os.Stderr, "c14 recover:", err)
+		return 2
+	}
+	out, err := os.OpenFile(job.Out, os.O_CREATE|os.O_WRONLY|os.O_APPEND, 0o666)
+	if err != nil {
+		fmt.Fprintln(os.Stderr, "c14 recover:", err)
+		return 2
+	}
+	debug.SetMaxStack(32 << 20)
+	for _, it := range job.Items {
+		fmt.Fprintf(os.Stderr, "c14 recover: image %s\n", it.ID)
+		o := crashRecoverOne(it)
+		line, _ := json.Marshal(o)
+		out.Write(append(line, '\n'))
+		os.RemoveAll(it.Dir)
+	}
+	out.Close()
+	return 0
+}
+
+// ---------------------------------------------------------------- recording, image enumeration, driver
+
+// sync classes: the tsi1 log files, the manifest (also under its temporary name) and the compacted index files
+var crashImgOpts = crashfs.Options{SyncClasses: []string{"*.tsl", "MANIFEST*", "*.tsi"}, Torn: true, Unsynced: true}
+
+func selfEnv(extra ...string) []string {
+	var env []string
+	for _, e := range os.Environ() {
+		if strings.HasPrefix(e, "VERIF_WORKER") || strings.HasPrefix(e, "VERIF_REPLAY=") || strings.HasPrefix(e, "VERIF_CRASH_WRITER=") || strings.HasPrefix(e, "VERIF_C14_") || strings.HasPrefix(e, "GOMAXPROCS=") {
+			continue
+		}
+		env = append(env, e)
+	}
+	return append(env, extra...)
+}
+
+func recordCrashHistory(scratch string, h CrashHistory) (*crashfs.Log, error) {
+	dir, err := os.MkdirTemp(scratch, "rec-")
+	if err != nil {
+		return nil, err
+	}
+	defer os.RemoveAll(dir)
+	sp := crashWriterSpec{Dir: filepath.Join(dir, "d"), Markers: filepath.Join(dir, "markers"), Cfg: h.Cfg, Ops: h.Ops}
+	js, _ := json.Marshal(sp)
+	return crashfs.Record(crashfs.RecordSpec{
+		Argv:       []string{os.Args[0], "-test.run", "^TestCheck$", "-test.timeout", "0"},
+		Env:        selfEnv("VERIF_CRASH_WRITER="+string(js), "GOMAXPROCS=1"),
+		DataDir:    sp.Dir,
+		MarkerFile: sp.Markers,
+	})
+}
+
+var manifestTmpRe = regexp.MustCompile(`MANIFEST[0-9]+`)
+
+// normPath removes the random suffix of the manifest's temporary file name.
+func normPath(p string) string { return manifestTmpRe.ReplaceAllString(p, "MANIFEST.tmp") }
+
+// prefixDigest pins the part of a log a descriptor depends on: every event up to the cut (and the torn write) with
+// paths, offsets and payload bytes. Two recordings with equal digests give byte-identical images.
+func prefixDigest(l *crashfs.Log, d crashfs.Descriptor) string {
+	n := d.Cut
+	if d.TornLen >= 0 && d.TornEvent >= n {
+		n = d.TornEvent + 1
+	}
+	if n > len(l.Events) {
+		return "log-too-short"
+	}
+	h := sha256.New()
+	for i := 0; i < n; i++ {
+		e := &l.Events[i]
+		fmt.Fprintf(h, "%s|%s|%s|%d|%d|%d|%x|", e.Op, normPath(e.Path), normPath(e.Path2), e.Ino, e.Off, e.Size, sha256.Sum256(e.Data))
+		if e.Marker != nil {
+			fmt.Fprintf(h, "%s|%d|%s|", e.Marker.Kind, e.Marker.K, e.Marker.Payload)
+		}
+	}
+	return hex.EncodeToString(h.Sum(nil)[:8])
+}
+
+var (
+	crashLogMu    sync.Mutex
+	crashLogCache = map[string]*crashfs.Log{}
+)
+
+func crashHistoryKey(h CrashHistory) string {
+	b, _ := json.Marshal(struct {
+		Cfg Cfg
+		Ops []Op
+	}{h.Cfg, h.Ops})
+	return string(b)
+}
+
+func findCrashLog(scratch string, h CrashHistory, d crashfs.Descriptor, digest string) (*crashfs.Log, string) {
+	crashLogMu.Lock()
+	l := crashLogCache[crashHistoryKey(h)]
+	crashLogMu.Unlock()
+	if l != nil && (digest == "" || prefixDigest(l, d) == digest) {
+		return l, ""
+	}
+	for try := 0; try < 6; try++ {
+		l, err := recordCrashHistory(scratch, h)
+		if err != nil {
+			return nil, "recording failed: " + err.Error()
+		}
+		crashLogMu.Lock()
+		crashLogCache[crashHistoryKey(h)] = l
+		crashLogMu.Unlock()
+		if digest == "" || prefixDigest(l, d) == digest {
+			return l, ""
+		}
+	}
+	return nil, "could not re-record a log with the same event prefix (the history is not deterministic enough for this descriptor)"
+}
+
+const isolatedTimeout = 90 * time.Second
+
+type crashItem struct {
+	im *crashfs.Image
+	cx crashCtx
+}
+
+func runCrashRecovery(dir string, h CrashHistory, items []crashItem, timeout time.Duration) (map[string]*CrashObs, string, error) {
+	job := crashRecJob{Out: filepath.Join(dir, "out.jsonl")}
+	for i, it := range items {
+		d := filepath.Join(dir, strconv.Itoa(i))
+		if err := it.im.Materialize(d); err != nil {
+			return nil, "", fmt.Errorf("materialize %v: %w", it.im.Desc, err)
+		}
+		job.Items = append(job.Items, crashRecItem{ID: strconv.Itoa(i), Dir: d, Cfg: h.Cfg, M: it.cx.M, InFl: it.cx.InFl, IDs: it.cx.IDs, Past: it.cx.Past, Probe: h.Probe})
+	}
+	jb, _ := json.Marshal(job)
+	jp := filepath.Join(dir, "job.json")
+	if err := os.WriteFile(jp, jb, 0o666); err != nil {
+		return nil, "", err
+	}
+	cmd := exec.Command(os.Args[0], "-test.run", "^TestCheck$", "-test.timeout", "0")
+	cmd.Env = selfEnv("VERIF_C14_RECOVER="+jp, "GOMAXPROCS=2")
+	var stderr strings.Builder
+	cmd.Stdout = &stderr
+	cmd.Stderr = &stderr
+	if err := cmd.Start(); err != nil {
+		return nil, "", err
+	}
+	done := make(chan error, 1)
+	go func() { done <- cmd.Wait() }()
+	timedOut := false
+	select {
+	case <-done:
+	case <-time.After(timeout):
+		timedOut = true
+		cmd.Process.Kill()
+		<-done
+	}
+	res := map[string]*CrashObs{}
+	if f, err := os.Open(job.Out); err == nil {
+		sc := bufio.NewScanner(f)
+		sc.Buffer(make([]byte, 1<<20), 64<<20)
+		for sc.Scan() {
+			var o CrashObs
+			if json.Unmarshal(sc.Bytes(), &o) == nil && o.ID != "" {
+				oo := o
+				res[o.ID] = &oo
+			}
+		}
+		f.Close()
+	}
+	t := stderr.String()
+	if timedOut {
+		t = "TIMEOUT (recovery hangs)\n" + t
+	}
+	return res, t, nil
+}
+
+var repoFrameRe = regexp.MustCompile(`(?m)^(github\.com/influxdata/influxdb/v2/[^\n]*)\([^()\n]*\)\s*$`)
+
+func deathClass(out string) string {
+	what := "died"
+	switch {
+	case strings.HasPrefix(out, "TIMEOUT"):
+		return "hang (no result within the time limit)"
+	case strings.Contains(out, "stack overflow") || strings.Contains(out, "goroutine stack exceeds"):
+		what = "fatal error: stack overflow"
+	case strings.Contains(out, "fatal error:"):
+		i := strings.Index(out, "fatal error:")
+		what = strings.SplitN(out[i:], "\n", 2)[0]
+	case strings.Contains(out, "panic:"):
+		i := strings.Index(out, "panic:")
+		what = strings.SplitN(out[i:], "\n", 2)[0]
+	}
+	if m := repoFrameRe.FindStringSubmatch(out); m != nil {
+		what += " @ " + m[1]
+	}
+	return what
+}
+
+func recoverAll(scratch string, h CrashHistory, items []crashItem, expired func() bool) (obs []*CrashObs, notes map[int]string, capped bool, err error) {
+	obs = make([]*CrashObs, len(items))
+	notes = map[int]string{}
+	const batch = 128
+	for lo := 0; lo < len(items); {
+		if expired != nil && expired() {
+			return obs, notes, true, nil
+		}
+		hi := min(lo+batch, len(items))
+		dir, err := os.MkdirTemp(scratch, "b-")
+		if err != nil {
+			return nil, nil, false, err
+		}
+		res, _, err := runCrashRecovery(dir, h, items[lo:hi], 120*time.Second+time.Duration(hi-lo)*2*time.Second)
+		os.RemoveAll(dir)
+		if err != nil {
+			return nil, nil, false, err
+		}
+		next := hi
+		for i := lo; i < hi; i++ {
+			if o := res[strconv.Itoa(i-lo)]; o != nil {
+				obs[i] = o
+			} else if i < next {
+				next = i
+			}
+		}
+		if next == hi {
+			lo = hi
+			continue
+		}
+		d2, _ := os.MkdirTemp(scratch, "iso-")
+		r2, out2, err2 := runCrashRecovery(d2, h, items[next:next+1], isolatedTimeout)
+		os.RemoveAll(d2)
+		switch {
+		case err2 != nil:
+			notes[next] = "the isolated recovery could not be run: " + err2.Error()
+		case r2["0"] != nil:
+			obs[next] = r2["0"]
+		default:
+			obs[next] = &CrashObs{ID: "0", Died: deathClass(out2)}
+		}
+		for i := next + 1; i < hi; i++ {
+			obs[i] = nil
+		}
+		lo = next + 1
+	}
+	return obs, notes, false, nil
+}
+
+// CrashCase is the replayable form of one crash violation.
+type CrashCase struct {
+	History CrashHistory       `json:"history"`
+	Desc    crashfs.Descriptor `json:"image"`
+	Digest  string             `json:"log_prefix_digest"`
+	Cut     string             `json:"cut_description"`
+	Want    string             `json:"want"` // the violation class this case was recorded for
+}
+
+func fileClass(p string) string {
+	if i := strings.Index(p, "->"); i >= 0 {
+		p = p[i+2:]
+	}
+	if p == "" {
+		return ""
+	}
+	b := filepath.Base(p)
+	switch {
+	case strings.HasSuffix(b, ".tsl"):
+		return "log"
+	case strings.HasSuffix(b, ".tsi"):
+		return "index-file"
+	case b == "MANIFEST":
+		return "manifest"
+	case strings.HasPrefix(b, "MANIFEST"):
+		return "manifest.tmp"
+	case strings.Contains(p, "_series"):
+		return "series-file"
+	case !strings.Contains(b, "."):
+		return "dir"
+	}
+	return "other"
+}
+
+func cutClass(im *crashfs.Image) string {
+	return strings.TrimSuffix(im.NextOp+":"+fileClass(im.NextPath), ":")
+}
+
+// crashSigs turns an observation into (signature, stage, detail) triples. Stale "extra" entries keep the
+// signature of the sequential part (the registered by-design staleness of tsi1 matches them; only new classes
+// alarm); everything else — a missing live series, a failing open or query, a panic, a dead recovery process —
+// gets a crash/ signature with the kind of cut, the op in flight and what was happening at the cut.
+func crashSigs(o *CrashObs, im *crashfs.Image, cx crashCtx) (out [][3]string) {
+	ctx := vlib.JoinSig("cut="+im.Desc.Kind, "inflight="+cx.Infl, "at="+cutClass(im))
+	switch {
+	case o.Died != "":
+		return [][3]string{{vlib.JoinSig("crash", "recovery-died", ctx), "restart", "the recovery process did not survive the crash image: " + o.Died}}
+	case o.Panic != "":
+		fr := strings.TrimPrefix(strings.TrimSpace(o.Panic[strings.LastIndex(o.Panic, "@")+1:]), "github.com/influxdata/influxdb/v2/")
+		return [][3]string{{vlib.JoinSig("crash", "panic", fr, ctx), "restart", "panic during recovery: " + o.Panic}}
+	}
+	for _, f := range o.Found {
+		if f.Extra {
+			out = append(out, [3]string{f.Sig, f.Stage, f.Why})
+			continue
+		}
+		st := f.Stage
+		if strings.HasPrefix(st, "probe:") {
+			st = "probe"
+		} else if strings.HasPrefix(st, "second-") {
+			st = "second-restart"
+		}
+		out = append(out, [3]string{vlib.JoinSig("crash", f.Clause, st, ctx), f.Stage, f.Why})
+	}
+	return out
+}
+
+func inflStr(cx crashCtx) string {
+	if cx.InFl == nil {
+		return cx.Infl
+	}
+	return cx.InFl.String()
+}
+
+func crashHistoryRun(c *vlib.Ctx, scratch string, h CrashHistory) (stop bool) {
+	t0 := time.Now()
+	l, err := recordCrashHistory(scratch, h)
+	tRec := time.Since(t0)
+	defer func() {
+		c.Logf("crash item %s: record %.1fs, total %.1fs", h, tRec.Seconds(), time.Since(t0).Seconds())
+	}()
+	if err != nil {
+		if errors.Is(err, crashfs.ErrNoTrace) {
+			c.Cap("crash family: strace cannot trace in this environment, no crash image was produced (" + err.Error() + ")")
+			return true
+		}
+		c.HarnessError(fmt.Sprintf("crash family: recording history %s: %v", h, err))
+		return false
+	}
+	crashLogMu.Lock()
+	crashLogCache[crashHistoryKey(h)] = l
+	crashLogMu.Unlock()
+	c.Extra("crash_histories", 1)
+	c.Extra("crash_events", int64(len(l.Events)))
+	c.Extra("crash_syscalls_in_logs", int64(l.Syscalls))
+	var items []crashItem
+	var st crashfs.Stats
+	opts := crashImgOpts
+	if !c.Thorough() {
+		// quick: writes longer than 128 bytes (manifest, compacted index files) get the torn lengths {1..64, every 512th,
+		// last 64}; the log file's writes are shorter and always get every length
+		opts.TornExhaustiveMax = 128
+	}
+	for im := range l.Images(opts, &st) {
+		cx, err := contextOf(im)
+		if err != nil {
+			c.HarnessError(fmt.Sprintf("crash family: history %s image %v: %v", h, im.Desc, err))
+			return false
+		}
+		if h.keep(cx) {
+			items = append(items, crashItem{im, cx})
+		}
+	}
+	for _, k := range []string{"P", "T", "U"} {
+		c.Extra("crash_images_generated_"+k, int64(st.Generated[k])) // by the engine, before deduplication and the window filter
+	}
+	c.Extra("crash_writes_with_subsampled_torn_lengths", int64(st.LongTorn))
+	t1 := time.Now()
+	obs, notes, capped, err := recoverAll(scratch, h, items, func() bool { return crashExpired(c) })
+	c.Logf("crash item %s: %d images recovered in %.1fs", h, len(items), time.Since(t1).Seconds())
+	if err != nil {
+		c.HarnessError("crash family: recovery batch: " + err.Error())
+		return false
+	}
+	states := map[string]struct{}{}
+	sampled := false
+	for i, it := range items {
+		o := obs[i]
+		if o == nil {
+			if n, ok := notes[i]; ok {
+				c.HarnessError(fmt.Sprintf("crash family: history %s image %v: %s", h, it.im.Desc, n))
+			}
+			continue
+		}
+		im, cx := it.im, it.cx
+		if o.Harness != "" || (!o.Done && o.Panic == "" && o.Died == "") {
+			c.HarnessError(fmt.Sprintf("crash family: history %s image %v: %s", h, im.Desc, o.Harness))
+			continue
+		}
+		c.Eval(1)
+		c.Extra("crash_images", 1)
+		c.Extra("crash_images_"+im.Desc.Kind, 1)
+		c.Extra("crash_cuts_at:"+cutClass(im), 1)
+		if o.State != "" {
+			states[o.State] = struct{}{}
+		}
+		if liveN(cx.M) > 0 || cx.Infl == OpCreate {
+			c.Nontrivial("crash|" + crashHistoryKey(h) + "|" + im.Desc.String())
+		}
+		sigs := crashSigs(o, im, cx)
+		res := "ok"
+		if len(sigs) > 0 {
+			res = "FAIL"
+			for _, f := range o.Found {
+				if !f.Extra {
+					res = "FAIL:" + f.Clause
+					break
+				}
+			}
+			if res == "FAIL" && len(o.Found) > 0 {
+				res = "stale-entries(" + o.Found[0].Clause + ")"
+			}
+		}
+		c.Outcome(fmt.Sprintf("crash:%s/inflight=%s/settled=%s:%s", im.Desc.Kind, cx.Infl, o.Settle, res))
+		cutDesc := fmt.Sprintf("%v: %s %s", im.Desc, im.NextOp, im.NextPath)
+		for _, sg := range sigs {
+			c.Violation(sg[0],
+				fmt.Sprintf("crash history %s, image %s; acknowledged model %s, in flight: %s — stage %s: %s", h, cutDesc, cx.M.key(), inflStr(cx), sg[1], sg[2]),
+				Case{Crash: &CrashCase{History: h, Desc: im.Desc, Digest: prefixDigest(l, im.Desc), Cut: cutDesc, Want: sg[0]}})
+		}
+		if len(sigs) == 0 && !sampled && c.WantSample() && im.Desc.Kind == crashfs.KindT && liveN(cx.M) > 0 && cx.InFl != nil {
+			sampled = true
+			c.Sample(map[string]any{"family": "crash", "history": h.String(), "image": im.Desc.String(), "at": im.NextOp + " " + im.NextPath,
+				"acknowledged_live": cx.M.key(), "in_flight": inflStr(cx), "recovered_view_is_model": o.Settle, "settled_live": o.State})
+		}
+	}
+	c.Extra("crash_distinct_recovered_states", int64(len(states)))
+	if capped {
+		c.Cap("the crash family's share of the budget expired (recovery of history " + h.Name + ")")
+	}
+	return false
+}
+
+// The crash family may use at most half of the tier's wall budget, so that on an overloaded machine the sequence
+// families still run (a cap is recorded, never an alarm).
+var crashDeadline time.Time
+
+func crashShare(c *vlib.Ctx) time.Duration {
+	if s := os.Getenv("C14_CRASH_SHARE_S"); s != "" { // development aid (mutation runs on an overloaded machine)
+		if v, err := strconv.Atoi(s); err == nil {
+			return time.Duration(v) * time.Second
+		}
+	}
+	if c.Thorough() {
+		return 390 * time.Second
+	}
+	return 30 * time.Second
+}
+
+func crashExpired(c *vlib.Ctx) bool { return c.Expired() || time.Now().After(crashDeadline) }
+
+func runCrash(c *vlib.Ctx) {
+	defer func() {
+		if r := recover(); r != nil {
+			c.HarnessError(fmt.Sprintf("crash family: explorer panicked: %v\n%s", r, debug.Stack()))
+		}
+	}()
+	if os.Getenv("C14_ONLY") == "seq" {
+		return
+	}
+	scratch := vlib.Scratch("c14c-")
+	defer os.RemoveAll(scratch)
+	crashDeadline = time.Now().Add(crashShare(c))
+	for hi, h := range crashHistories(c.Tier) {
+		if !c.Mine(int64(hi)) {
+			continue
+		}
+		if crashExpired(c) {
+			c.Cap("the crash family's share of the budget expired (before history " + h.Name + ")")
+			break
+		}
+		if crashHistoryRun(c, scratch, h) {
+			return
+		}
+	}
+}
+
+func replayCrash(cs *CrashCase) (bool, string) {
+	scratch := vlib.Scratch("c14cr-")
+	defer os.RemoveAll(scratch)
+	h := cs.History
+	l, msg := findCrashLog(scratch, h, cs.Desc, cs.Digest)
+	if l == nil {
+		return false, msg
+	}
+	im, err := l.Build(cs.Desc, crashImgOpts)
+	if err != nil {
+		return false, "cannot rebuild the image: " + err.Error()
+	}
+	cx, err := contextOf(im)
+	if err != nil {
+		return false, err.Error()
+	}
+	dir, _ := os.MkdirTemp(scratch, "img-")
+	res, out, err := runCrashRecovery(dir, h, []crashItem{{im, cx}}, isolatedTimeout)
+	if err != nil {
+		return false, "recovery could not be run: " + err.Error()
+	}
+	obs := fmt.Sprintf("crash history %s image %v (at the cut: %s %s; acknowledged model %s, in flight: %s): ", h, cs.Desc, im.NextOp, im.NextPath, cx.M.key(), inflStr(cx))
+	o := res["0"]
+	if o == nil {
+		o = &CrashObs{ID: "0", Died: deathClass(out)}
+	}
+	if o.Harness != "" {
+		return false, obs + "harness problem: " + o.Harness
+	}
+	var other []string
+	for _, sg := range crashSigs(o, im, cx) {
+		if sg[0] == cs.Want || cs.Want == "" {
+			return true, obs + fmt.Sprintf("stage %s: %s [%s]", sg[1], sg[2], sg[0])
+		}
+		other = append(other, sg[0])
+	}
+	return false, obs + fmt.Sprintf("class %q not reproduced (recovered view settled on %s = %s; other classes %v)", cs.Want, o.State, o.Settle, other)
+}
+
 func TestCheck(t *testing.T) {
+	if js := os.Getenv("VERIF_CRASH_WRITER"); js != "" {
+		os.Exit(crashWriterMain(js))
+	}
+	if jp := os.Getenv("VERIF_C14_RECOVER"); jp != "" {
+		os.Exit(crashRecoverMain(jp))
+	}
+	if n := os.Getenv("VERIF_C14_DUMP"); n != "" { // development aid: print the event list of one crash history
+		for _, h := range crashHistories("thorough") {
+			if h.Name != n {
+				continue
+			}
+			scratch := vlib.Scratch("c14d-")
+			defer os.RemoveAll(scratch)
+			l, err := recordCrashHistory(scratch, h)
+			if err != nil {
+				fmt.Println("record:", err)
+				return
+			}
+			for _, e := range l.Events {
+				n := len(e.Data)
+				if len(e.Data) > 16 {
+					e.Data = e.Data[:16]
+				}
+				b, _ := json.Marshal(e)
+				fmt.Println(n, string(b))
+			}
+			return
+		}
+		return
+	}
 	vlib.Main(t, &vlib.Check{
 		ID: "C14", Level: "model_checking", QuickBudgetS: 45, ThoroughBudgetS: 780, WorkerEnv: []string{"GOMAXPROCS=1"},
 		Rule: "every op sequence within the stated length bounds, each executed from scratch on a real tsi1.Index on a real tsdb.SeriesFile in a fresh directory, over a universe of 6 series (S0 m0,a=x; S1 m0,a=y; S2 m0,a=x,b=x; S3 m0,b=y; S4 m1,a=x; S5 m1,a=y,b=x: 2 measurements x 2 tag keys x 2 values; S2 is the only holder of m0.b=x). " +
@@ -1469,6 +2437,10 @@ func TestCheck(t *testing.T) {
 			"the tag-value series-id cache of the Index is warm (every step queries every tag value), as on a server that answers queries between writes",
 		},
 		Run: func(c *vlib.Ctx) {
+			runCrash(c) // crash family first: of fixed size and limited to half of the budget
+			if os.Getenv("C14_ONLY") == "crash" {
+				return
+			}
 			base := vlib.Scratch("c14-")
 			defer os.RemoveAll(base)
 			var idx int64
@@ -1560,6 +2532,9 @@ func TestCheck(t *testing.T) {
 			var cs Case
 			if err := json.Unmarshal(raw, &cs); err != nil {
 				return false, err.Error()
+			}
+			if cs.Crash != nil {
+				return replayCrash(cs.Crash)
 			}
 			if cs.Sched {
 				return replaySched(t, cs)
